@@ -8,17 +8,22 @@ import Qryn.Gen.PromStep
     timestamp_ms)` of the selected series inside `[Start, End]`, ordered by (fingerprint, timestamp).
     `processHints` then
 
-    * for `Func == ""` or an instant-vector function (`Gen.PromStep.instantFuncs`) wraps that query:
+    * for `Func == ""` or an instant-vector function (`Gen.PromStep.instantFuncs`), an instant selector (`Range == 0`) and
+      a step that divides the engine's lookback delta (`Gen.PromStep.lookbackMs`) wraps that query (after `fix: a stepped
+      range query hands the engine the last sample of every step bucket with its own time …`; `Gen.PromStep.bucketTime =
+      "sample"`):
       ```sql
       WITH spls AS (raw scan)
-      SELECT fingerprint, argMax(spls.value, spls.timestamp_ms) AS value,
-             intDiv(spls.timestamp_ms - Start + Step - 1, Step) * Step + Start AS timestamp_ms
-      FROM spls GROUP BY timestamp_ms, fingerprint ORDER BY fingerprint ASC, timestamp_ms ASC
+      SELECT fingerprint, argMax(spls.value, spls.timestamp_ms) AS value, max(spls.timestamp_ms) AS last_ms
+      FROM spls GROUP BY intDiv(spls.timestamp_ms - Start + Step - 1, Step), fingerprint
+      ORDER BY fingerprint ASC, last_ms ASC
       ```
-      `bucket`: one row per (fingerprint, step bucket); bucket k is `(Start+(k−1)·Step, Start+k·Step]`
-      (bucket 0 is `{Start}`), the row carries the value of the bucket's sample with the greatest timestamp
-      and the time of the bucket end;
-    * for a range-vector function (`Gen.PromStep.rangeFuncs`) with `Step > Range` adds a WHERE condition
+      `bucketLast`: one row per (fingerprint, step bucket); bucket k is `(Start+(k−1)·Step, Start+k·Step]`
+      (bucket 0 is `{Start}`), the row is the bucket's sample with the greatest timestamp, with its own time.
+      As it was written (`bucketTime = "bucket-end"`, `bucket`): for every step and range, the row carried the time of the
+      bucket end (`intDiv(…) * Step + Start AS timestamp_ms`, `GROUP BY timestamp_ms`);
+    * for a range-vector function (`Gen.PromStep.rangeFuncs`) over a range selector (`Range > 0`,
+      `Gen.PromStep.rangeGuard`) with `Step > Range` adds a WHERE condition
       (`keep`): after `fix: the range-vector sample filter …` it is `(timestamp_ms − Start) % Step <= Range`
       (`Gen.PromStep.rangeFilter = "windows"`); the pinned tree had `timestamp_ms % Step == 0 or >= Step − Range`
       (`keepW`).
@@ -80,6 +85,24 @@ def bucket (start step : Int) (rows : List Row) : List Row :=
   (keys start step rows).filterMap (fun k =>
     (argMax (group start step rows k)).map (fun r => ⟨k.1, r.val, k.2⟩))
 
+/-- the per-step aggregation after the fix: the last sample of every (fingerprint, step bucket), as it is stored -/
+def bucketLast (start step : Int) (rows : List Row) : List Row :=
+  (keys start step rows).filterMap (fun k => argMax (group start step rows k))
+
+/-- `(instantVectors[hints.Func] || hints.Func == "") [&& hints.Range == 0 && lookbackDeltaMs%hints.Step == 0]` -/
+def bucketed (h : Hints) : Bool :=
+  isInstant h.func &&
+    (if Gen.PromStep.bucketTime = "sample" then h.range == 0 && Gen.PromStep.lookbackMs % h.step == 0 else true)
+
+/-- the aggregation the source has now -/
+def bucketNow (h : Hints) (rows : List Row) : List Row :=
+  if Gen.PromStep.bucketTime = "sample" then bucketLast h.start h.step rows else bucket h.start h.step rows
+
+/-- `rangeVectors[hints.Func] [&& hints.Range > 0] && hints.Step > hints.Range` -/
+def filtered (h : Hints) : Bool :=
+  isRangeFn h.func && (if Gen.PromStep.rangeGuard = "range-selector" then decide (h.range > 0) else true) &&
+    decide (h.step > h.range)
+
 /-- the range filter after the fix: `(timestamp_ms - Start) % Step <= Range` -/
 def keep (start step range ts : Int) : Bool := decide ((ts - start) % step ≤ range)
 
@@ -95,13 +118,18 @@ def keepNow (h : Hints) (ts : Int) : Bool :=
 def run (h : Hints) (rows : List Row) : List Row :=
   if h.step = 0 then rows
   else
-    let r1 := if isInstant h.func then bucket h.start h.step rows else rows
-    if isRangeFn h.func && decide (h.step > h.range) then r1.filter (fun r => keepNow h r.ts) else r1
+    let r1 := if bucketed h then bucketNow h rows else rows
+    if filtered h then r1.filter (fun r => keepNow h r.ts) else r1
 
 /-! ### SQL text of what `processHints` adds -/
 
 /-- the outer SELECT of the per-step aggregation (after `WITH fp_sel as (…),spls as (raw scan)`) -/
 def renderBucket (start step : Int) : Bytes :=
+  if Gen.PromStep.bucketTime = "sample" then
+    ascii ("SELECT fingerprint, argMax(spls.value, spls.timestamp_ms) as value, max(spls.timestamp_ms) as last_ms FROM spls " ++
+      "GROUP BY intDiv(spls.timestamp_ms - " ++ toString start ++ " + " ++ toString step ++ " - 1, " ++ toString step ++
+      "), fingerprint ORDER BY fingerprint asc, last_ms asc")
+  else
   ascii ("SELECT fingerprint, argMax(spls.value, spls.timestamp_ms) as value, intDiv(spls.timestamp_ms - " ++
     toString start ++ " + " ++ toString step ++ " - 1, " ++ toString step ++ ") * " ++ toString step ++ " + " ++
     toString start ++ " as timestamp_ms FROM spls GROUP BY timestamp_ms, fingerprint ORDER BY fingerprint asc, timestamp_ms asc")
@@ -117,7 +145,7 @@ def renderFilter (h : Hints) : Bytes :=
 /-- which of the two additions apply: `(bucketed, filtered)` -/
 def shape (h : Hints) : Bool × Bool :=
   if h.step = 0 then (false, false)
-  else (isInstant h.func, isRangeFn h.func && decide (h.step > h.range))
+  else (bucketed h, filtered h)
 
 /-! ### routing between the raw and the down-sampled path (`CLokiQuerier.transpileLabelMatchers`) -/
 
@@ -127,5 +155,36 @@ def usesRaw (h : Hints) : Bool :=
   h.start % Gen.PromStep.downsampleMs != 0 || decide (h.step < Gen.PromStep.downsampleMs) ||
     (decide (h.range > 0) && decide (h.range < Gen.PromStep.downsampleMs)) ||
     !((sup.getD false) || sup.isNone)
+
+/-! ### what the engine asks for (`promql.Engine.populateSeries`, pinned Prometheus v1.8.2-0.20220714 ≈ 2.37)
+
+    For a selector that is not under a sub-query and has no `@` modifier (qryn's engine has `EnableAtModifier: false`)
+    the engine passes `Start = start − (range, or the lookback delta for an instant selector) − offset`,
+    `End = end − offset`, `Step = interval` (0 for an instant query), `Range = range` and `Func` = the name of the nearest
+    enclosing function call or aggregation (`extractFuncFromPath`; `""` when a binary operator comes first or there is
+    none). Tied to the real engine by the `hints` stream (every function of `parser.Functions`, every aggregator). -/
+
+/-- the window of a query: `start`, `end`, `interval` in ms (`interval = 0`: instant query, then `start = end`) -/
+structure Query where
+  start : Int
+  stop : Int
+  step : Int
+deriving Repr
+
+/-- `populateSeries` / `getTimeRangesForSelector` for a selector with range `range` (0 = instant selector), offset `off`,
+    under the function / aggregation `func`; `lookback` = the engine's lookback delta (5 min: `LookbackDelta: 0`) -/
+def engineHints (q : Query) (lookback range off : Int) (func : String) : Hints :=
+  { start := q.start - (if range = 0 then lookback else range) - off,
+    stop := q.stop - off, step := q.step, range := range, func := func }
+
+/-- the classes `processHints` distinguishes by `hints.Func` -/
+inductive FuncClass
+  | instant   -- "" or a function of `instantVectors`: per-step pre-aggregation (when `bucketed`)
+  | range     -- a function of `rangeVectors`: window filter when Step > Range
+  | other     -- anything else (aggregations, `timestamp`, `quantile_over_time`, `changes`, `histogram_quantile`, …): untouched
+deriving DecidableEq, Repr
+
+def classOf (f : String) : FuncClass :=
+  if isInstant f then .instant else if isRangeFn f then .range else .other
 
 end Qryn.Prom.Stepped
